@@ -242,9 +242,16 @@ def runBlocking (line : String) : String :=
     | _, _, _, _, _, _ => "bad-op"
   | _ => "bad-op"
 
+/-- C08 projection: did the call return or panic. -/
+def runBlockingC08 (line : String) : String :=
+  match (runBlocking line).splitOn "\t" with
+  | [o, sig] => (if o == "panic" then "panic" else if o == "bad-op" then "bad-op" else if o == "blocked" then "blocked" else "returned") ++ "\t" ++ sig
+  | _ => runBlocking line
+
 def streams : List (String × (String → String)) :=
   [("batcher", runBatcher), ("batcher_c06", runBatcherProj proj06), ("batcher_c07", runBatcherProj proj07),
    ("batcher_c08", runBatcherProj proj08), ("batcher_c09", runBatcherProj proj09),
-   ("batcher_blocking", runBlocking)]
+   ("batcher_blocking", runBlocking), ("batcher_blocking_c07", runBlocking), ("batcher_blocking_c09", runBlocking),
+   ("batcher_blocking_c08", runBlockingC08)]
 
 end EmitModel.Driver.Batcher
